@@ -4,6 +4,8 @@ import (
 	"container/list"
 	"fmt"
 	"math/rand"
+	"os"
+	"path/filepath"
 	"strings"
 	"sync/atomic"
 	"time"
@@ -298,8 +300,13 @@ func c11EndToEnd(r *hx.Run, rnd *rand.Rand) {
 		cache string
 		addr  string
 		store bool
+		// unusable: a store is configured but cannot be opened - the cache is memory-only
+		unusable bool
 	}
 	var insts []inst
+	blocker := filepath.Join(r.Scratch, "c11-regular-file")
+	os.WriteFile(blocker, []byte("x"), 0644)
+	extraPorts := hx.FreePorts(2)
 	w := newWorldCfg(r, 1, true, func(origins []string) *config.PikeConfig {
 		cfg := &config.PikeConfig{
 			Upstreams: []config.UpstreamConfig{{Name: "u", Servers: []config.UpstreamServerConfig{{Addr: origins[0]}}}},
@@ -316,8 +323,15 @@ func c11EndToEnd(r *hx.Run, rnd *rand.Rand) {
 				addr := srvAddr(ports[2*i+j])
 				cfg.Caches = append(cfg.Caches, cc)
 				cfg.Servers = append(cfg.Servers, config.ServerConfig{Addr: addr, Locations: []string{"l"}, Cache: name})
-				insts = append(insts, inst{s, name, addr, st})
+				insts = append(insts, inst{s, name, addr, st, false})
 			}
+		}
+		for k, s := range []int{3, 20} {
+			name := fmt.Sprintf("cbad%d", s)
+			addr := srvAddr(extraPorts[k])
+			cfg.Caches = append(cfg.Caches, config.CacheConfig{Name: name, Size: s, HitForPass: "5m", Store: "badger://" + filepath.Join(blocker, name)})
+			cfg.Servers = append(cfg.Servers, config.ServerConfig{Addr: addr, Locations: []string{"l"}, Cache: name})
+			insts = append(insts, inst{s, name, addr, false, true})
 		}
 		return cfg
 	})
@@ -380,6 +394,24 @@ func c11EndToEnd(r *hx.Run, rnd *rand.Rand) {
 			// once, so every hitForPass answer is a key that was resident when this pass began.
 			if res := w.Cl.Get(in.addr, "h.example", fmt.Sprintf("/e2e/%s/uncacheable/%d", in.cache, k)); res.Label == "hitForPass" {
 				held++
+			}
+		}
+		if in.unusable {
+			// nothing but the LRU can hold a key here: of 3S+20 cacheable keys at most S still answer hit
+			nc := 3*in.size + 20
+			for k := 0; k < nc; k++ {
+				w.Cl.Get(in.addr, "h.example", fmt.Sprintf("/e2e/%s/cacheable-pop/%d", in.cache, k))
+			}
+			stillHit := 0
+			for k := nc - 1; k >= 0; k-- {
+				if res := w.Cl.Get(in.addr, "h.example", fmt.Sprintf("/e2e/%s/cacheable-pop/%d", in.cache, k)); res.Label == "hit" {
+					stillHit++
+				}
+			}
+			r.Add("e2e_cacheable_populations_on_caches_with_unusable_store", 1)
+			if stillHit > in.size {
+				r.Violate("resident_exceeds_size", map[string]string{"size_class": "unusable_store", "size": fmt.Sprint(in.size)},
+					fmt.Sprintf("after %d distinct cacheable keys a cache of size %d whose store cannot be opened still answers %d of them as hit", nc, in.size, stillHit), nil, map[string]interface{}{"size": in.size})
 			}
 		}
 		r.Add("e2e_uncacheable_key_populations", 1)
